@@ -108,7 +108,7 @@ def run_coeffs(ctx, fs):
     tg = ctx.build()
     itext = "".join("coeffs c%d %d %d %s\n" % (it, it, len(fs), " ".join(fhex(f) for f in fs)) for it in (1, 2, 3, 4))
     mtext = "".join("coeffs c%d %d %d %s\n" % (it, it, len(fs), " ".join(qtok(Fraction(f)) for f in fs)) for it in (1, 2, 3, 4))
-    rc, out, err = run_driver(tg["impl_driver"], itext)
+    rc, out, err = run_driver(tg["impl_kick"], itext)
     if rc != 0:
         raise RuntimeError("impl_driver: " + err[-500:])
     impl = parse_cases(out)
@@ -144,7 +144,7 @@ def run(ctx):
     ctx.rule = ("kick cases: n 4..33, both directions, it 1..4, nb 1..3, streams exact (offsets k/16, integer data, bit equality), "
                 "whole (integer offsets, arbitrary data, bit equality), tol (arbitrary floats, K*2^-24*cond), polynomial fields; "
                 "coefficient samples in [0,1). Non-trivial: non-zero shift on non-zero data / degree>=1 with fractional offset / it>1 and f!=0.")
-    coq = vp_coq.full_check("C02", ctx)
+    coq = vp_coq.full_check("C02", ctx, fams=("kick",))
     nk = 120 if ctx.quick() else 3000
     cases = kc.gen_cases(ctx, nk, streams=("exact", "whole", "tol", "whole"))
     pc = poly_cases(ctx, 60 if ctx.quick() else 1500)
